@@ -1,7 +1,7 @@
 """Grammar-directed generators for patch locators / ranges and fake stacks (C15)."""
 
 NAME_POOL = ["p0", "p1", "p2", "fix", "5", "0", "12", "abc123", "abcd", "deadbeef", "-1", "+1", "p+1", "p+",
-             "a-b", "x.y", "été", "P0", "fix2", "-", "+", "1a", "beef", "0001", "7~", "{base}+1", "@+1",
+             "a-b", "x.y", "été", "P0", "fix2", "-", "+", "1a", "beef", "0001", "{base}+1", "@+1",
              "--", "p0+1", "abcde", "00000000"]
 BIGS = ["9223372036854775807", "9223372036854775808", "18446744073709551615", "99999999999999999999", "007", "0"]
 
